@@ -33,6 +33,7 @@ func runC14(p *load.Program, r *oblig.Report) {
 	c14Rack(p, r)
 	c14OwnStorage(p, r)
 	c14RawRackKeys(p, r)
+	c13NoAppendAfterSizedMake(p, r, "C14.R11 partition lists hold the listed partitions and nothing else", "groupbalancer.go")
 }
 
 func clean(s string) string { return strings.ReplaceAll(s, "@", "") }
